@@ -15,7 +15,8 @@ THEOREMS = ['TexSoup.C18.' + n for n in (
     'extend_failure_keeps_prefix', 'coerce_correct', 'str_is_concat',
     'Legacy.insert_breaks_list_semantics', 'Legacy.pop_returns_textual_twin',
     'Legacy.pop_differs_only_in_returned_object', 'Legacy.pop_agrees_on_plain_pool',
-    'Legacy.insert_repaired_on_witness')]
+    'Legacy.insert_repaired_on_witness', 'all_holds_every_list_object', 'inv_survives_content_edit',
+    'Legacy2.insert_misplaced_twin', 'Legacy2.remove_mutated_all_before_raising')]
 PARTIAL = []
 TRUSTED = ['hand-written model of TexSoup.data.TexArgs (lean/TexSoupModel/Args.lean), tied to the code by the '
            'correspondence run only',
